@@ -159,17 +159,36 @@ pub fn run(ctx: &mut Ctx) {
                     stats.nontrivial(&json!([f.sw, f.sh, f.dw, f.dh, f64_to_json(f.cx), f64_to_json(f.cy)]));
                     // thin the big ones
                     let (sw, sh, dw, dh) = (f.sw, f.sh.min(if f.sw > 100 { 8 } else { 700 }), f.dw, f.dh.min(if f.dw > 100 { 8 } else { 700 }));
-                    let src = vec![U8::new(7); (sw * sh) as usize];
+                    // identity-tagged source: the position of the crop box is visible in the result
+                    let src: Vec<U8> = (0..sw * sh).map(|i| U8::new(((i % sw) * 7 + (i / sw) * 13 + 1) as u8)).collect();
+                    // the box the (separately judged) free function returns for these arguments
+                    let b = CropBox::fit_src_into_dst_size(sw, sh, dw, dh, Some((f.cx, f.cy)));
                     for alg in [Alg::Nearest, Alg::Conv(Filt::Bilinear), Alg::Super(Filt::Box, 2)] {
                         let opts: ResizeOptions = ResizeOptions::new().resize_alg(alg.to_fr()).fit_into_destination(Some((f.cx, f.cy)));
+                        let explicit: ResizeOptions = ResizeOptions::new().resize_alg(alg.to_fr()).crop(b.left, b.top, b.width, b.height);
                         stats.count("resize_calls", 1);
+                        let want = resize_vec::<U8>(&src, sw, sh, dw, dh, &explicit, Ext::Avx2);
                         match resize_vec::<U8>(&src, sw, sh, dw, dh, &opts, Ext::Avx2) {
                             Ok(out) => {
-                                if out.iter().any(|p| p.0 != 7) {
-                                    viols.push(Viol::new("fit_resize_wrong", format!("{}x{} -> {}x{}: uniform image changed", sw, sh, dw, dh)));
+                                // the option must place the box exactly where the function says (centering clamped, not replaced)
+                                if want.as_ref().map_or(true, |w| w.iter().map(|p| p.0).ne(out.iter().map(|p| p.0))) {
+                                    viols.push(
+                                        Viol::new("fit_option_uses_another_box", format!("{}x{} -> {}x{} centering ({}, {}) {}: the result differs from a resize with the crop box {:?} that fit_src_into_dst_size returns", sw, sh, dw, dh, f.cx, f.cy, alg.short(), b))
+                                            .sig(json!({"clause": "centering"})),
+                                    );
                                 }
                             }
                             Err(e) => viols.push(Viol::new("fit_resize_error", format!("{}x{} -> {}x{} centering ({}, {}): {:?}", sw, sh, dw, dh, f.cx, f.cy, e)).sig(json!({"clause": "in_bounds"}))),
+                        }
+                    }
+                    // default centering
+                    {
+                        let d = CropBox::fit_src_into_dst_size(sw, sh, dw, dh, None);
+                        let a = resize_vec::<U8>(&src, sw, sh, dw, dh, &ResizeOptions::new().resize_alg(Alg::Nearest.to_fr()).fit_into_destination(None), Ext::None);
+                        let w = resize_vec::<U8>(&src, sw, sh, dw, dh, &ResizeOptions::new().resize_alg(Alg::Nearest.to_fr()).crop(d.left, d.top, d.width, d.height), Ext::None);
+                        match (a, w) {
+                            (Ok(a), Ok(w)) if a.iter().map(|p| p.0).eq(w.iter().map(|p| p.0)) => {}
+                            (a, _) => viols.push(Viol::new("fit_option_uses_another_box", format!("{}x{} -> {}x{} default centering: {:?}", sw, sh, dw, dh, a.map(|_| ()))).sig(json!({"clause": "centering"}))),
                         }
                     }
                 },
